@@ -3,6 +3,8 @@ import Clover.Spec.Spec
 import Clover.Proofs.RefineFindAll
 import Clover.Proofs.ReadsAny
 import Clover.Proofs.ReadsExact
+import Clover.Proofs.RefineFaults
+import Clover.Proofs.SpecWF
 /-! # C01 — queries return exactly the documents that satisfy their criteria -/
 namespace CV.Props.C01
 open CV
@@ -110,5 +112,23 @@ theorem refine_history (ops : List Op) (hok : ∀ op ∈ ops, OpOK op) (hdet : A
     (modelRun likeFn fnFam ops {}).1 = (specRun likeFn fnFam ops []).1 ∧
       Rep (specRun likeFn fnFam ops []).2 (modelRun likeFn fnFam ops {}).2.kv ∧ WF (specRun likeFn fnFam ops []).2 :=
   refine_from_empty likeFn fnFam ops hok hdet
+
+/-- **… under arbitrary fault schedules too**: in any history in which every call runs under its own
+    fault schedule, a call hit by a fault returns an error and changes neither the store nor the
+    specification's state (it simply did not happen), and every other call returns exactly the
+    specification's answer; at the end the store represents the specification's state. -/
+theorem refine_history_under_faults (h : List (Op × Faults)) (hok : ∀ x ∈ h, OpOK x.1)
+    (hdet : AllDeterminedF likeFn fnFam h {} []) :
+    (∀ x ∈ (lockstep likeFn fnFam h {} []).1, CallAgrees x) ∧
+      Rep (lockstep likeFn fnFam h {} []).2.2 (lockstep likeFn fnFam h {} []).2.1.kv ∧
+      WF (lockstep likeFn fnFam h {} []).2.2 :=
+  refine_from_empty_faults likeFn fnFam h hok hdet
+
+/-- The specification itself is well behaved for EVERY operation (also the queries an index would
+    serve): its states stay well formed and an error never changes the state. -/
+theorem spec_keeps_wellformed (ops : List Op) (hok : ∀ op ∈ ops, OpOK op) : WF (specRun likeFn fnFam ops []).2 :=
+  spec_history_wf likeFn fnFam ops hok
+theorem spec_error_changes_nothing (s : Spec.State) (op : Op) (h : (Spec.step likeFn fnFam s op).1.isErr = true) :
+    (Spec.step likeFn fnFam s op).2 = s := spec_step_err_unchanged likeFn fnFam s op h
 
 end CV.Props.C01
